@@ -259,4 +259,76 @@ theorem C07_learning_gate (d : Dev) (sub : Sub) (node : String) (code : Code) (r
     simp only [hl, true_and]
     rw [if_pos hv]
 
+/-- consequently the gated event contains no controller or pitch-bend message at all: every message in it is the
+    Note Off of a note the key emulation of this axis still held -/
+theorem C07_learning_gate_only_releases (d : Dev) (sub : Sub) (node : String) (code : Code) (raw : Int)
+    (m : Mapping) (a : Analog) (dz : Rat)
+    (hm : d.curMap = some m) (ha : alookup (sub, code) m.analog = some a)
+    (hdz : m.deadzone sub code = some dz) (hl : d.learning = true)
+    (hnew : (alookup (sub, code) d.lastAna).getD 0 ≠
+      shapeRaw ((alookup (node, code) d.cfg.axes).getD (0, 0)).1 ((alookup (node, code) d.cfg.axes).getD (0, 0)).2
+        a.dzCenter dz raw)
+    (hv : ¬ (flipVal (decide (((alookup (node, code) d.cfg.axes).getD (0, 0)).1 < 0) || a.dzCenter) a.flip
+              (shapeRaw ((alookup (node, code) d.cfg.axes).getD (0, 0)).1 ((alookup (node, code) d.cfg.axes).getD (0, 0)).2
+                a.dzCenter dz raw) < -1/2 ∨
+            1/2 < flipVal (decide (((alookup (node, code) d.cfg.axes).getD (0, 0)).1 < 0) || a.dzCenter) a.flip
+              (shapeRaw ((alookup (node, code) d.cfg.axes).getD (0, 0)).1 ((alookup (node, code) d.cfg.axes).getD (0, 0)).2
+                a.dzCenter dz raw))) :
+    ∀ o ∈ (d.handleAbs sub node code raw).2, ∃ id ∈ [((code, false) : Code × Bool), (code, true)], ∃ n ch,
+      alookup id d.anaTr = some (n, ch) ∧ o = noteEvent stNoteOff ch n 0 := by
+  intro o ho
+  rw [C07_learning_gate d sub node code raw m a dz hm ha hdz hl hnew hv] at ho
+  split at ho
+  · simp at ho
+  · exact releaseAxis_out_mem d code o ho
+
+/-- and with nothing held by the key emulation of this axis the gated event is empty -/
+theorem C07_learning_gate_silent (d : Dev) (sub : Sub) (node : String) (code : Code) (raw : Int)
+    (m : Mapping) (a : Analog) (dz : Rat)
+    (hm : d.curMap = some m) (ha : alookup (sub, code) m.analog = some a)
+    (hdz : m.deadzone sub code = some dz) (hl : d.learning = true)
+    (hnew : (alookup (sub, code) d.lastAna).getD 0 ≠
+      shapeRaw ((alookup (node, code) d.cfg.axes).getD (0, 0)).1 ((alookup (node, code) d.cfg.axes).getD (0, 0)).2
+        a.dzCenter dz raw)
+    (hv : ¬ (flipVal (decide (((alookup (node, code) d.cfg.axes).getD (0, 0)).1 < 0) || a.dzCenter) a.flip
+              (shapeRaw ((alookup (node, code) d.cfg.axes).getD (0, 0)).1 ((alookup (node, code) d.cfg.axes).getD (0, 0)).2
+                a.dzCenter dz raw) < -1/2 ∨
+            1/2 < flipVal (decide (((alookup (node, code) d.cfg.axes).getD (0, 0)).1 < 0) || a.dzCenter) a.flip
+              (shapeRaw ((alookup (node, code) d.cfg.axes).getD (0, 0)).1 ((alookup (node, code) d.cfg.axes).getD (0, 0)).2
+                a.dzCenter dz raw)))
+    (hp : alookup (code, false) d.anaTr = none) (hq : alookup (code, true) d.anaTr = none) :
+    (d.handleAbs sub node code raw).2 = [] := by
+  rw [C07_learning_gate d sub node code raw m a dz hm ha hdz hl hnew hv]
+  split
+  · rfl
+  · rw [releaseAxis_out, hp, hq]; rfl
+
+/-! ### where `bidirCC` is called from -/
+
+/-- for a bidirectional entry `absCC` is `bidirCC`: the side is "below rest" (0 for an axis that can go negative,
+    1/2 otherwise) and the value is the distance from rest -/
+theorem absCC_bidir (d : Dev) (a : Analog) (canNeg : Bool) (v : Rat) (hb : a.bidir = true) :
+    d.absCC a canNeg v =
+      d.bidirCC a (if canNeg then decide (v < 0) else decide (v < 1/2))
+        (if canNeg then rabs v else rabs (fsub (fmul v 2) 1)) := by
+  unfold Dev.absCC
+  cases canNeg <;> simp [hb]
+
+/-! ### non-vacuity -/
+
+private def cfg0 : Config :=
+  { maps := [], actions := [], exitSeq := [], mode := .off, defOct := 0, defSemi := 0, defCh := 1,
+    defMap := 0, vel := 64, axes := [] }
+private def a0 : Analog :=
+  { kind := .cc, cc := 1, ccNeg := 2, note := 0, noteNeg := 0, chOff := 0, chOffNeg := 3,
+    act := .none, actNeg := .none, flip := false, bidir := true, dzCenter := false }
+
+/-- full positive deflection, then half negative deflection: the second event carries the value for the negative
+    controller and the explicit 0 for the positive one (evaluated in the kernel, no `native_decide`) -/
+example :
+    ((Dev.init cfg0).bidirCC a0 false 1).2 = [ccMsg 0 1 127, ccMsg 3 2 0] ∧
+    (((Dev.init cfg0).bidirCC a0 false 1).1.bidirCC a0 true (1/2)).2 = [ccMsg 3 2 63, ccMsg 0 1 0] ∧
+    (((Dev.init cfg0).bidirCC a0 false 1).1.bidirCC a0 true (1/2)).1.ccZeroed = [1] := by
+  decide +kernel
+
 end Hidi.Props.C07
